@@ -419,3 +419,40 @@ def gen_heating(rng, n=None, source=None, modes=CONSUMER_MODES, chords=None, max
         add("ext_grid", junction="f0", p_bar=p_flow, t_k=t_flow, type="pt", in_service=True)
         add("ext_grid", junction="r0", p_bar=p_flow - float(rng.uniform(1.5, 4)), t_k=tr0, type="p", in_service=True)
     return {"fluid": "water", "junctions": js, "elements": els, "heating": {"source": source, "t_flow": t_flow}}
+
+
+def gen_thermal_mesh(rng, n=None, two_feeders=None, max_sections=3):
+    """Passive hot-water mesh (no heat sources): one or two pt feeders, sinks, pipes with heat loss.
+    With two feeders and meshes, reverse flow against the declared direction occurs."""
+    n = int(n or rng.integers(4, 10))
+    two = bool(rng.random() < 0.6) if two_feeders is None else two_feeders
+    js = [{"name": "j%d" % i, "pn_bar": 5.0, "tfluid_k": float(rng.uniform(290, 340)), "height_m": 0.0, "in_service": True}
+          for i in range(n)]
+    els = [{"kind": "ext_grid", "name": "eg0", "junction": "j0", "p_bar": 6.0, "t_k": float(rng.uniform(350, 385)), "in_service": True}]
+    if two:
+        els.append({"kind": "ext_grid", "name": "eg1", "junction": "j1", "p_bar": 6.0 - float(rng.uniform(0, 0.15)),
+                    "t_k": float(rng.uniform(315, 345)), "in_service": True})
+    edges = []
+    for i in range(2 if two else 1, n):
+        edges.append((int(rng.integers(0, i)), i))
+    for _ in range(int(rng.integers(1, n))):
+        a, b = (int(x) for x in rng.choice(n, 2, replace=False))
+        if rng.random() < 0.5:
+            a, b = b, a
+        edges.append((a, b))
+    for k, (a, b) in enumerate(edges):
+        d = float(rng.uniform(80, 500))
+        els.append({"kind": "pipe", "name": "pipe%d" % k, "from_junction": "j%d" % a, "to_junction": "j%d" % b,
+                    "length_km": float(rng.uniform(0.06, 0.3)), "inner_diameter_mm": d,
+                    "outer_diameter_mm": d + float(rng.uniform(0, 40)), "k_mm": 0.1,
+                    "sections": int(rng.integers(1, max_sections + 1)),
+                    "u_w_per_m2k": float(rng.uniform(0, 25)) if rng.random() < 0.85 else 0.0,
+                    "text_k": float(rng.uniform(265, 295)) if rng.random() < 0.8 else None, "in_service": True})
+    for i in range(2 if two else 1, n):
+        if rng.random() < 0.75:
+            els.append({"kind": "sink", "name": "sink%d" % i, "junction": "j%d" % i,
+                        "mdot_kg_per_s": float(rng.uniform(0.2, 2.0)), "scaling": 1.0, "in_service": True})
+    for e in els:
+        if e["kind"] == "pipe" and e["text_k"] is None:
+            del e["text_k"]
+    return {"fluid": "water", "junctions": js, "elements": els, "heating": {"source": "passive"}}
